@@ -34,7 +34,8 @@ func register(id string, c checkFn, r replayFn) {
 }
 
 func main() {
-	debug.SetGCPercent(800)
+	debug.SetGCPercent(400)
+	debug.SetMemoryLimit(12 << 30) // soft limit: collect harder instead of growing without bound
 	if len(os.Args) < 2 {
 		usage()
 	}
